@@ -166,6 +166,8 @@ func valuePool() []*variants.Variant {
 		// numeric strings that are decimal only: zero-padded, signed, with a base prefix, with separators, with blanks
 		variants.VariantFromString("010"), variants.VariantFromString("-017"), variants.VariantFromString("0x10"), variants.VariantFromString("0b11"), variants.VariantFromString("+5"),
 		variants.VariantFromString("1_000"), variants.VariantFromString(" 7"), variants.VariantFromString("0o7"), variants.VariantFromString("9223372036854775808"),
+		// one half (a square root written as a power), of both float types
+		variants.VariantFromDouble(0.5), variants.VariantFromFloat(0.5),
 		// long digit strings
 		variants.VariantFromString("12345678901234567890"), variants.VariantFromString("00000000000000000001"), variants.VariantFromString("-9223372036854775808"), variants.VariantFromString("1234567890123456789"),
 	}
